@@ -69,9 +69,19 @@ def scenario(seed, snap, duration, nresets, suspending=False):
                     elif loop.time() >= cur[3] and st.mode_now()[0] != "blackout":
                         detect.append(tuple(cur))        # the blackout ended before it had to be reported
                         cur = None
+        async def spa_life():
+            # the spa's own values move all the time (water temperature): each change is reported once, by a partial update that the
+            # network of that moment may lose - only the refresh loop repairs it
+            v = 0
+            while True:
+                await asyncio.sleep(rng.choice([3.0, 9.0, 21.0]))
+                v += 1
+                st.peer.spontaneous("DisplayedTempG", 60.0 + (v % 40))
+        lt = loop.create_task(spa_life())
         rt, wt = loop.create_task(resetter()), loop.create_task(watcher())
         await asyncio.sleep(duration)
         await rt
+        lt.cancel()
         th = loop.time()
         healed = None
         while loop.time() - th < HEAL_BOUND + 200:
